@@ -13,6 +13,7 @@
       `f.Primary()` and `f.LastPrimaryKey()` may be nil.
   * `d2ir/d2ir.go: Map.createEdge` keyword checks → `edgeKeyword` / `edgeKeywordOld`
       the index found in the *resolved* edge path was used to index the *original* key path.
+  * `d2ir/d2ir.go: EdgeID.resolve` underscore loop → `resolve` / `resolveOld`
   * `d2compiler/compile.go: compiler.compileMap` class application → `applyClass` / fuel model of the old
       unguarded recursion; the class stack discipline.
   * `d2ir/import.go: pushImportStack / __import` → `importWalk`: the stack holds pairwise distinct paths, the
@@ -273,6 +274,38 @@ def edgeKeyword (res : List Seg) : Except Crash (Option Nat) :=
     match findSeg .board res with
     | some i => if i + 1 = res.length then (if i < res.length then .ok (some i) else .error .indexRange) else .ok none
     | none => .ok none
+
+/-! ### EdgeID.resolve: consuming underscores -/
+
+/-- an edge endpoint while `resolve` runs: `true` = an unquoted `_` path element -/
+abbrev UPath := List Bool
+
+def countUnderscores : UPath → Nat
+  | true :: t => countUnderscores t + 1
+  | _ => 0
+
+/-- one iteration on one endpoint, before the fix: `eid.SrcPath[0]` is read unconditionally -/
+def stripOld : UPath → Except Crash UPath
+  | [] => .error .indexRange
+  | true :: t => .ok t
+  | false :: t => .ok (false :: false :: t)      -- the container's name is prepended
+
+/-- current: an exhausted endpoint takes the container name like any non-underscore path -/
+def strip : UPath → Except Crash UPath
+  | [] => .ok [false]
+  | true :: t => .ok t
+  | false :: t => .ok (false :: false :: t)
+
+def iterBoth (f : UPath → Except Crash UPath) : Nat → UPath → UPath → Except Crash (UPath × UPath)
+  | 0, s, d => .ok (s, d)
+  | n + 1, s, d =>
+    match f s, f d with
+    | .error e, _ => .error e
+    | _, .error e => .error e
+    | .ok s', .ok d' => iterBoth f n s' d'
+
+def resolveOld (s d : UPath) : Except Crash (UPath × UPath) := iterBoth stripOld (max (countUnderscores s) (countUnderscores d)) s d
+def resolve (s d : UPath) : Except Crash (UPath × UPath) := iterBoth strip (max (countUnderscores s) (countUnderscores d)) s d
 
 /-! ### class application (d2compiler `compileMap` → `GetClassMap` → `compileMap`) -/
 
